@@ -100,6 +100,55 @@ def codons_on_chunk(lens, strand, frames, realised=False):
     return fn
 
 
+def window_codons_on_chunk(lens, strand, frames, expand, realised=False):
+    """codon-window restriction (by chromosome start/end) on a chunk-built CDS: the chunk-relative scan, lifted back, lists exactly the model codons
+    fully inside the window AND the chunk - in the CDS's frame, whatever the window and the chunk cut off the 5' end"""
+    k = len(lens)
+
+    def fn(**kw):
+        if realised:
+            names = sorted(kw)
+            vals = concretize(*[kw[n] for n in names])
+            kw = dict(zip(names, vals if isinstance(vals, list) else [vals]))
+            kw["we"] = kw["ws"] + kw.pop("wl")
+            with untraced():
+                return bool(body(**kw))
+        return body(**kw)
+
+    def body(**kw):
+        starts = _starts(lens, kw)
+        ends = [s + n for s, n in zip(starts, lens)]
+        w, ws, we = kw["w"], kw["ws"], kw["we"]
+        fr = [CDSFrame(f) for f in frames]
+        chunk = CDSInterval(starts, ends, strand, fr, guid=45, parent_or_seq_chunk_parent=chunk_parent(w, L))
+        exp_all = ref_codon_positions(starts, lens, strand, frames)
+        inside = [AND(*[AND(w <= p, p < w + L, ws <= p, p < we) for p in e]) for e in exp_all]
+        try:
+            rel = list(chunk.scan_chunk_relative_codon_locations(ws, we, expand_window_to_partial_codons=expand))
+        except (BioCantorException, ValueError):
+            # refusal is acceptable only when no complete codon lies inside window and chunk
+            return NOT(OR(*inside)) if inside else True
+        got, conds = [], []
+        for c in rel:
+            if len(c) != 3:
+                return False
+            up = c.lift_over_to_first_ancestor_of_type(SequenceType.CHROMOSOME)
+            got.append([up.relative_to_parent_pos(i) for i in range(3)])
+            for i in range(3):
+                conds.append(c.relative_to_parent_pos(i) + w == up.relative_to_parent_pos(i))
+        for e, ins in zip(exp_all, inside):
+            present = OR(*[AND(g[0] == e[0], g[1] == e[1], g[2] == e[2]) for g in got]) if got else False
+            conds.append(OR(NOT(ins), present) if expand else IFF(ins, present))
+        for g in got:
+            # soundness: every listed codon is a model codon lying inside the chunk
+            conds.append(OR(*[AND(g[0] == e[0], g[1] == e[1], g[2] == e[2], *[AND(w <= p, p < w + L) for p in e]) for e in exp_all]) if exp_all else False)
+        for a, b in zip(got, got[1:]):
+            conds.append(a[0] < b[0] if strand is PLUS else a[0] > b[0])
+        return AND(*conds) if conds else True
+
+    return fn
+
+
 def location_on_chunk(kind, k, strand):
     def fn(**kw):
         bl = layout_blocks(k, kw)
@@ -415,6 +464,37 @@ def obligations(tier):
                             "intron), evaluated alternately: each one's chunk-relative codons are its own model codons inside the window",
                        bounds="first exon lengths 6..10 each, start frames 0..2, window start 9..14 (chunk length 24), either order (realised)",
                        examples=[dict(a1=8, a2=10, f0=0, w=12, first=0), dict(a1=10, a2=7, f0=1, w=10, first=1)]))
+    for strand in (PLUS, MINUS):
+        for lens, f0s in ((((7,), (0,)), ((4, 5), (0, 1))) if quick else (((7,), (0,)), ((9,), (0,)), ((4, 5), (0, 1, 2)), ((3, 3), (0, 2)), ((2, 4, 3), (0, 1)))):
+            for f0 in f0s:
+                for expand in ((False,) if quick and len(lens) > 1 and f0 else (False, True)):
+                    k = len(lens)
+                    frames = consistent_frames(lens, strand, f0)
+                    name = "window_codons_on_chunk_%s_%s_f%d_%s" % ("-".join(map(str, lens)), sname(strand), f0, "expand" if expand else "strict")
+                    desc = ("codon window (chromosome start/end%s) on a chunk-built CDS: the chunk-relative scan lists exactly the model codons fully inside "
+                            "window and chunk, in frame, whatever window and chunk cut off the 5' end" % (", expanded to partial codons" if expand else ""))
+                    if k == 1:
+                        params = {"s0": int, "w": int, "ws": int, "we": int}
+                        ex = {"s0": 102, "w": 100, "ws": 103, "we": 108}
+                        out.append(Obl(name, window_codons_on_chunk(lens, strand, frames, expand), params,
+                                       lambda **kw: kw["s0"] >= 0 and kw["w"] >= 0 and kw["ws"] >= 0 and kw["ws"] < kw["we"], budget=600, cost=60,
+                                       desc=desc, bounds="exon length %s, start frame 0 (non-zero start frames of single-exon CDSs are the recorded finding F8/F8b), "
+                                                         "symbolic start / chunk start / window, chunk length %d" % (lens, L),
+                                       examples=[ex, dict(ex, ws=104, we=110), dict(ex, w=104, ws=101, we=140)]))
+                    else:
+                        params = {"s0": int, "w": int, "ws": int, "wl": int}
+                        for i in range(1, k):
+                            params["g%d" % i] = int
+                        ex = dict({"s0": 102, "w": 100, "ws": 103, "wl": 5}, **{"g%d" % i: 2 for i in range(1, k)})
+                        span = sum(lens) + 2 * (k - 1)
+                        out.append(Obl(name, window_codons_on_chunk(lens, strand, frames, expand, realised=True), params,
+                                       (lambda k, span: (lambda **kw: 100 <= kw["s0"] and kw["s0"] <= 102 and 98 <= kw["w"] and kw["w"] <= 100 + span - 3
+                                                         and 99 <= kw["ws"] and kw["ws"] <= 100 + span and 3 <= kw["wl"] and kw["wl"] <= 8
+                                                         and all(1 <= kw["g%d" % i] and kw["g%d" % i] <= 2 for i in range(1, k))))(k, span),
+                                       budget=900, cost=60 * k, desc=desc,
+                                       bounds="exon lengths %s, consistent frames from start frame %d, first start 100..102, gaps 1..2, chunk start 98..%d (length %d), "
+                                              "window start 99..%d, window length 3..8 (realised)" % (lens, f0, 100 + span - 3, L, 100 + span),
+                                       examples=[ex, dict(ex, ws=104, wl=6), dict(ex, w=104, ws=101, wl=8)]))
     cds_shapes = [((5,), None), ((6,), None), ((7,), None), ((3, 3), None), ((4, 5), None), ((2, 4), None), ((4, 5), "shift")]
     if not quick:
         cds_shapes += [((3, 4), None), ((5, 2), None), ((1, 3), None), ((3, 3, 3), None), ((4, 2, 3), None), ((2, 2, 2), "shift")]
